@@ -16,6 +16,9 @@ LEVEL_TEXT = ("static: decides only the shape-of-code clauses: every *_first/*_l
               "used across a resize, existing keys are replaced in place and keys are counted once; hash and equality callbacks of each typed table "
               "identify keys alike; skip-list nodes are linked/unlinked from both sides on every level and scans follow the comparator's sign. "
               "Does NOT decide conformance to the abstract model under operation sequences.")
+# fifth-round additions
+TECHNIQUE += "; " + 'must-pass-through (claim before destructor) in node_destroy of both lists; exact evaluation of ares_array_move over a finite domain of (alloc, offset, cnt, src, dest)'
+LEVEL_TEXT += " " + "(UNLINKFIRST) a node is unlinked before its value's destructor runs; (MOVEBOUND) ares_array_move performs every shift that stays inside the allocation, including one that ends at its last slot, and refuses a right shift past it (offset 0)."
 LEVEL_NOTE = "trusts clang CFG + extractor; conformance to the ADT model needs model-based execution and is outside this family"
 DESIGN_REF = "DESIGN.md §6/C19"
 EXPLANATION = LEVEL_TEXT
